@@ -126,7 +126,7 @@ Definition tmpls_safe_g (T : list tmpl) : bool := forallb tmpl_safe_g T.
 Inductive Outg (T : list tmpl) : str -> Prop :=
 | Og_atom s : endsafe s = true -> s <> [] -> Outg T s
 | Og_paren s : Outg T s -> Outg T (40 :: s ++ [41])
-| Og_inst t fills : In t T -> Outsg T fills -> Outg T (inst_g [] t fills)
+| Og_inst t fills : In t T -> Outsg T fills -> inst_g [] t fills <> [] -> Outg T (inst_g [] t fills)   (* no operator renders as the empty text *)
 with Outsg (T : list tmpl) : list str -> Prop :=
 | Osg_nil : Outsg T []
 | Osg_cons s l : Outg T s -> Outsg T l -> Outsg T (s :: l).
